@@ -1,5 +1,5 @@
 """C14 -- layout and statement order do not change the output (non-interference by types)."""
-import re
+import re, collections
 
 from vlib import ast as A, prov as P, mir as M, witness as W
 
@@ -470,7 +470,61 @@ def seqskip_rule(repo, res, rule="SEQSKIP"):
     res.floor(rule, n, 8)
 
 
+def span_bearing_types(repo):
+    """names of the crate's structs / enums that hold a source position (HumanSpan), directly or through a field of such a type"""
+    defs = {}
+    for st in repo.structs.values() if hasattr(repo, "structs") else []:
+        defs[st["name"]] = " ".join(str(f.get("ty")) for f in st["fields"])
+    for en in repo.enums.values() if hasattr(repo, "enums") else []:
+        defs[en["name"]] = " ".join(str(f.get("ty")) for v in en["variants"] for f in v["fields"])
+    bearing = {"HumanSpan"}
+    changed = True
+    while changed:
+        changed = False
+        for n, txt in defs.items():
+            if n not in bearing and set(re.findall(r"[A-Za-z_]\w*", txt)) & bearing:
+                bearing.add(n)
+                changed = True
+    return bearing
+
+
+def _first_type_arg(ty):
+    i = ty.find("<")
+    if i < 0:
+        return ""
+    d, j = 0, i
+    for j in range(i, len(ty)):
+        ch = ty[j]
+        d += ch == "<"
+        d -= ch == ">"
+        if (ch == "," and d == 1) or d == 0:
+            break
+    return ty[i + 1:j]
+
+
+def spankey_rule(repo, res, tier, rule="SPANKEY"):
+    """`only the tokens and their order matter`: the order in which a hash container hands out its elements depends on the hash of the
+    KEY; a key that contains a source position (line / column of a token) makes that order -- and whatever is numbered in that order
+    -- follow the layout of the grammar file.  Every iteration over a hash container reachable from main (engine M, resolved types)
+    must have a key type free of HumanSpan."""
+    from . import c10
+    it_sites, random_uses, sens = c10.iteration_sites(tier)
+    bearing = span_bearing_types(repo)
+    groups = collections.Counter((s_["fn"], s_["ty"]) for s_ in it_sites)
+    bad = 0
+    for (fn, ty), n in sorted(groups.items()):
+        key = _first_type_arg(ty)
+        hit = sorted(set(re.findall(r"[A-Za-z_]\w*", key)) & bearing)
+        if hit:
+            bad += 1
+            res.bad(rule, f"{rule}:{fn}:{key[:60]}", f"{n} iteration(s) over {ty[:90]}: the key holds a source position ({hit}), so the iteration order changes when the grammar is laid out differently", "")
+    res.check(len(groups) >= 10, rule, f"{rule}:scan", f"{len(groups)} hash-container iteration sites reachable from main inspected ({len(bearing)} position-bearing types: {sorted(bearing)[:8]}..): {bad} with a position in the key", "")
+    # a container whose order is seeded per process is not a function of the text at all (HASHORD, shared with C10)
+    c10.hashord_rule(res, it_sites, random_uses, sens)
+
+
 def run(repo, res, tier):
+    spankey_rule(repo, res, tier)
     twopass_rule(repo, res)
     from . import c08
     c08.guard_rules(repo, res)  # order of definitions: each rejection is decided by a predicate that does not depend on which definition comes first (e.g. duplicates among plain definitions only)
